@@ -50,9 +50,11 @@ def mk(kind, items):
     if kind == "RoaringIdSet":
         return idsets.RoaringIdSet(items)
     if kind == "MultiIdSet":
-        lo = [i for i in items if i < 10]
-        hi = [i - 10 for i in items if i >= 10]
-        return idsets.MultiIdSet([idsets.BitSet(lo, size=10), idsets.SortedIntSet(hi)], [0, 10])
+        # three sub-sets whose offsets (7, 15) are ids of the universe, so a sub-set can hold its local id 0 (seed C20-4)
+        lo = [i for i in items if i < 7]
+        mid = [i - 7 for i in items if 7 <= i < 15]
+        hi = [i - 15 for i in items if i >= 15]
+        return idsets.MultiIdSet([idsets.BitSet(lo, size=7), idsets.SortedIntSet(mid), idsets.SortedIntSet(hi)], [0, 7, 15])
     raise ValueError(kind)
 
 
